@@ -152,10 +152,22 @@ class _StatePointDict(JSONAttrDict):
                     # rejected value would silently be applied by the next edit.
                     # (Start from an empty mapping: an in-place update keeps values
                     # that merely compare equal, e.g. 1.0 instead of 1.)
-                    restored = self._load_from_resource()
-                    with self._suspend_sync:
-                        self._data = {}
-                        self._update(restored, _validate=False)
+                    try:
+                        restored = self._load_from_resource()
+                    except ValueError:
+                        # The restored file cannot be read (it was damaged in the
+                        # meantime): fall back to the state point known to the
+                        # handles before this edit.
+                        restored = job._cached_statepoint
+                    if restored is None:
+                        # Nothing is known about the actual state point. Forget the
+                        # rejected one: it is loaded and validated on the next access.
+                        for job in self._jobs:
+                            job._statepoint_requires_init = True
+                    else:
+                        with self._suspend_sync:
+                            self._data = {}
+                            self._update(restored, _validate=False)
                     raise DestinationExistsError(new_id)
                 else:
                     raise
